@@ -189,7 +189,7 @@ func rawFor(kind, uname, size string, seed int64) []RawKey {
 			r := rand.New(rand.NewSource(seed))
 			r.Shuffle(len(u), func(i, j int) { u[i], u[j] = u[j], u[i] })
 			return u[:min(len(u), 11)]
-		case "fan1", "fan2", "fanb", "fan18", "fan64":
+		case "fan1", "fan2", "fanb", "fan18", "fan64", "fan16":
 			return Universe(uname, size, seed)
 		case "fanp64":
 			// 64 values of the last byte below a fixed path: short fill/drain cycles of a 256-class node WITH a compressed path
@@ -326,6 +326,7 @@ func cmdReplay(args []string) {
 	bat := fs.String("battery", "all", "")
 	every := fs.Bool("every", false, "battery after every step of a behaviour (default: only after the last)")
 	histBat := fs.Int("batevery", 0, "battery after every Nth step of a behaviour (and after the last)")
+	preBat := fs.Bool("prebattery", false, "also run the battery BEFORE the last step of a transition test (reads interleaved anywhere)")
 	stats := fs.String("stats", "", "")
 	maxLines := fs.Int("maxlines", 0, "start a new trace file (out.N) after this many lines")
 	fs.Parse(args)
@@ -391,6 +392,9 @@ func cmdReplay(args []string) {
 			}
 		} else {
 			rec.Pre(parseOps(e.Pre))
+			if *preBat {
+				rec.RunBattery(bt)
+			}
 			rec.DumpAll = true
 			rec.apply(parseOps([]json.RawMessage{e.Op})[0])
 			rec.RunBattery(bt)
